@@ -419,7 +419,7 @@ class CallMixin:
             v = bound[n]
             if isinstance(v, VOpt) and not isinstance(kind, KOpt):
                 # demand non-None as a precondition obligation
-                st = self.oblige(st, Not(v.isnone), "pre", f"{c.qualname}:arg-{n}-not-None@{where}")
+                st = self.oblige(st, Not(v.isnone), "pre", f"{c.qualname}:arg-{n}-not-None", meta={"where": where})
                 v = v.inner
             v = self.coerce(st, v, kind)
             if isinstance(kind, KOpt) and not isinstance(kind.inner, KNone):
@@ -448,7 +448,7 @@ class CallMixin:
         # unless bound through hints; skip (clauses mentioning them are not usable)
         for cl in c.requires:
             st = self.oblige(st, self.spec_bool(SpecEnv(st, dict(bound)), cl.expr), "pre",
-                             f"{c.qualname}:{cl.label}@{where}")
+                             f"{c.qualname}:{cl.label}", meta={"where": where})
         pre_st = st
         # havoc
         post = self.havoc_locations(st, list(c.modifies) + list(c.ghost_modifies), SpecEnv(st, dict(bound)))
